@@ -241,6 +241,9 @@ def low_bit(run):
 
 
 def build(run):
+    from props import conformance
+
+    conformance.run_conformance(run, ['symmetric', 'affine'])
     run.assume("A-ENGINE qvc VC generator + z3/cvc5", "A-PY", "A-REAL", "A-TORCH-RED amax/amin: upper bound of the reduced slice and attained in it",
                "A-TORCH-EW abs / division by a python int keeps the tensor dtype", "group / PackedTensor contracts (C02, C04)")
     run.assumptions += ["dimensions >= 1", "a group of the grouped tensor is G consecutive positions of the row-major flattening of one axis index "
